@@ -1927,12 +1927,13 @@ class C17(Prop):
 class C14(Prop):
     pid = "C14"
     rule = ("unit impulse at a random input frame n through all seven real resampler types (real sinc kernels, all windows, "
-            "interpolation types, polynomial degrees, FFT rate pairs), constant ratio, random chunk sizes; the energy centroid "
+            "interpolation types, polynomial degrees, FFT rate pairs), at the construction ratio and (polynomial types) after a "
+            "stepped ratio change, random chunk sizes; the energy centroid "
             "of the dumped output stream must be n*ratio + output_delay() within max(1, ratio) + 1 output frames. "
             "distinct = (type, config, n mod 8)")
     assumptions = COMMON_ASSUME + ["that zero-padded FFT multiplication is a linear convolution is assumed about realfft and measured here",
                                    "the sinc types report L/2*ratio instead of the true ratio*(1-1/f)-1 (finding D1)"]
-    n_quick = 100
+    n_quick = 60
     n_thorough = 1500
 
     def scenarios(self, rng):
@@ -1955,10 +1956,23 @@ class C14(Prop):
                 fi, fo = fft_sizes(cfg.ri, cfg.ro, cfg.chunk // (1 if cfg.kind == "fftio" else cfg.sub), cfg.kind == "fftout")
                 per_in = max(1, cfg.chunk if cfg.kind != "fftout" else cfg.chunk / ratio)
                 need_in = n + 3 * fi + 100
+            pre = []
+            if cfg.kind in gen.ASYNC and cfg.kind.startswith("fast") and rng.random() < 0.5:
+                # run at a ratio different from the construction ratio (stepped change before the first call: the fresh
+                # state makes any in-range jump safe); output_delay() must follow the ratio in force
+                p = cfg.line.split()
+                p[3] = hx(rng.choice([2.0, 4.0, 8.0]))
+                cfg.line = " ".join(p)
+                cfg.maxrel = unhx(p[3])
+                r1, rel = gen.in_range_ratio(rng, cfg, calm=False)
+                pre = [f"0 ratio {hx(r1)} 0"]
+                ratio = r1
+                per_in = cfg.chunk if cfg.kind.endswith("in") else max(1, cfg.chunk / ratio)
+                need_in = n + 4 * L + 50 + int(10 / ratio)
             ncalls = int(need_in / per_in) + 3
             if ncalls > 6000:
                 continue
-            ops = [cfg.new(0)] + [f"0 proc - n m k{n} dump"] * ncalls
+            ops = [cfg.new(0)] + pre + [f"0 proc - n m k{n} dump"] * ncalls
             hs.append(History(ops, {"cfg": cfg.line, "kind": cfg.kind, "ty": cfg.ty, "feats": ["impulse"], "n": n,
                                     "ratio": ratio}))
         return hs
@@ -2067,7 +2081,7 @@ class ToneProp(Prop):
             if fam < 0.7:
                 kind = rng.choice(["sincin", "sincout"])
                 ratio = math.exp(rng.uniform(math.log(1 / 8), math.log(8))) if rng.random() < 0.6 else rng.choice([0.5, 2.0, 48000 / 44100, 44100 / 48000, 1.0, 3.0, 1 / 3])
-                sl = rng.choice([64, 128, 256])
+                sl = rng.choice([64, 72, 100, 128, 136, 200, 256])     # lengths are rounded up to multiples of 8, not of 16
                 win = rng.randint(0, 5)
                 it = rng.randint(0, 3)
                 osf = rng.choice([128, 256, 1024, 2048]) if it in (2, 3) else rng.choice([16, 64, 128, 256])
@@ -2077,7 +2091,9 @@ class ToneProp(Prop):
                 lowmin = min(1.0, ratio)
                 halfw = (1 - cc) / lowmin
                 chunk = rng.choice([64, 256, 1000, 1024])
-                line = f"{ty} {kind} {hx(ratio)} {hx(1.0)} {it} {sl} {osf} {hx32(fcut)} {win} {chunk} 1 auto"
+                # the permitted adjustment range must not influence the filter
+                maxrel = rng.choice([1.0, 1.0, 1.25, 2.0, 10.0])
+                line = f"{ty} {kind} {hx(ratio)} {hx(maxrel)} {it} {sl} {osf} {hx32(fcut)} {win} {chunk} 1 auto"
                 if not self.stop:
                     edge = fcut - halfw
                     if edge <= 0.05:
@@ -2102,6 +2118,7 @@ class ToneProp(Prop):
                 n_in = min(n_in, 40000)
                 per = chunk if kind == "sincin" else max(1, int(chunk / ratio))
                 ncalls = n_in // per + 2
+                L = 8 * ((sl + 7) // 8)
                 meta = {"fam": "sinc", "ratio": ratio, "win": win, "it": it, "osf": osf, "fcut": fcut, "sl": sl,
                         "f_in": f_in, "L": L, "cc": cc}
             else:
@@ -2139,6 +2156,21 @@ class ToneProp(Prop):
 
     def distinct_key(self, h):
         return (h.meta["cfg"], round(h.meta["f_in"], 6))
+
+    def run(self, rng, histories=None, have_model=True):
+        res = Prop.run(self, rng, histories=histories, have_model=have_model)
+        # the Float twin computes the specified polyphase filter in the same precision: an output that differs from it by
+        # more than the correspondence tolerance is a concrete input on which the crate is not the specified filter
+        keep = []
+        for d in res["disagreements"]:
+            if d.get("what") == "data-tol":
+                res["violations"].append({"property": self.pid, "kind": "sinc", "clause": "output-differs-from-specified-filter",
+                                          "calm": True, "step": d.get("step"), "op": d.get("op"),
+                                          "detail": {"real": d.get("real"), "model": d.get("model"), "cfg": d.get("cfg")},
+                                          "ops": d.get("ops"), "meta": {"cfg": d.get("cfg")}, "model_predicts": False})
+            keep.append(d)
+        res["disagreements"] = keep
+        return res
 
     def measure(self, h):
         st = streams(h)
